@@ -13,3 +13,10 @@ open Martian.Props.C15
 #print axioms skip_logging_records_nothing_with_errors
 #print axioms unskipped_without_error_is_recorded
 #print axioms logMsgT_ok
+#print axioms flags_accumulate
+#print axioms mark_idempotent
+#print axioms skip_logging_records_nothing_marks
+#print axioms marked_exchange_is_not_recorded
+#print axioms held_messages_are_isolated
+#print axioms held_messages_are_isolated_from
+#print axioms pooled_buffers_break_isolation
